@@ -11,8 +11,9 @@ pub const SYNTAX: [char; 18] = [
     ':', '=', '"', '\\', '#', '!', '$', '%', '{', '}', ' ', '\t', '\r', '\n', 'n', 'r', 't', 'a',
 ];
 
-pub const ODD: [char; 12] = [
-    '\0', 'é', 'ß', '漢', '😀', '\u{200b}', '\u{feff}', '\u{7f}', 'Z', '0', '-', '.',
+/// (typographic quotes and guillemets: ordinary characters, not quotes)
+pub const ODD: [char; 16] = [
+    '\0', 'é', 'ß', '漢', '😀', '\u{200b}', '\u{feff}', '\u{7f}', 'Z', '0', '-', '.', '\u{201c}', '\u{201d}', '\u{2018}', '\u{ab}',
 ];
 
 /// arbitrary text: mix of syntax characters, letters, multi-byte and white space
